@@ -17,6 +17,7 @@ import PoetryVerif.Proofs.MarkerAlgSoundComb
 import PoetryVerif.Proofs.MarkerAlgSoundInvert
 import PoetryVerif.Proofs.MarkerAlgSoundVerEqv
 import PoetryVerif.Proofs.MarkerAlgSoundVerInv
+import PoetryVerif.Proofs.MarkerAlgSoundVerMk
 import PoetryVerif.Proofs.MarkerPrint
 
 set_option linter.unusedSimpArgs false
@@ -368,6 +369,40 @@ example : Leaf.invert (.single (ineqLeaf .ge ">=" 3 [8, 0])) = .ok (.leaf (.sing
     DomInvReady [exV380] exEnvPy (.single (ineqLeaf .ge ">=" 3 [8, 0])) :=
   ⟨invert_ineq (by decide) 3 [8, 0] (by decide),
    Or.inr ⟨.ge, ">=", .lt, "<", 3, [8, 0], by decide, by decide, by decide, rfl⟩⟩
+
+/-- **The constructor fact for `python_full_version`, proved**: when every bound in `B` is a release literal
+`X.Y.Z…` (at least three components, canonical text — `LitB B`), `SingleMarker("python_full_version", str(c))` for
+a simple constraint `c` (an exact version, a one-sided range, or the `!= V` union) re-reads to a leaf of the
+fragment admitting the environment's version exactly when `c` does.  Uses C06's text-level constructor lemmas,
+the printer model, and for `!= V` C05's `inverted_sem`. -/
+theorem mkVerOK_python_full_version {B : List Version} (hB : RegB B) (hL : LitB B) {p : Version}
+    (hp : p.wf = true) (hreg : Regular B p) : MkVerOK B "python_full_version" p :=
+  mkVerOK_pfv_full hB hL hp hreg
+
+/-- **Intersection, union and inversion preserve truth on the combined domain, no unproved hypothesis** —
+markers over plain string variables, `extra`, and `python_full_version` leaves whose bounds are release
+literals `X.Y.Z…` that are mutually regular (`RegB B`, `LitB B`), in environments defining the extras and
+giving `python_full_version` a well-formed version regular for the bounds (`VerEnv`): every fuel, every stack. -/
+theorem intersect_union_sound_domain {B : List Version} (hB : RegB B) (hL : LitB B) {ex : List String}
+    (hX : E.extras = some ex) {p : Version} (hE : VerEnv B E "python_full_version" p) {a b r : M}
+    (ha : M.Good (DomLeaf B E) a) (hb : M.Good (DomLeaf B E) b) :
+    (mIntersect fuel stk a b = .ok r →
+      M.Good (DomLeaf B E) r ∧ M.validate E r = .ok (holds E a && holds E b)) ∧
+    (mUnion fuel stk a b = .ok r →
+      M.Good (DomLeaf B E) r ∧ M.validate E r = .ok (holds E a || holds E b)) :=
+  intersect_union_sound_domain_partial hB hX hE (mkVerOK_pfv_full hB hL hE.wf hE.reg) ha hb
+
+theorem invert_sound_domain {B : List Version} (hB : RegB B) (hL : LitB B) {ex : List String}
+    (hX : E.extras = some ex) {p : Version} (hE : VerEnv B E "python_full_version" p) {a r : M}
+    (ha : M.Good (DomInvReady B E) a) (h : a.invert = .ok r) :
+    M.Good (DomInvLeaf B E) r ∧ M.validate E r = .ok (!holds E a) :=
+  invert_sound_domain_partial hB hX hE (mkVerOK_pfv_full hB hL hE.wf hE.reg) ha h
+
+example : LitB [exV380] := by
+  intro V hV
+  simp only [List.mem_cons, List.mem_nil_iff, or_false] at hV
+  subst hV
+  exact ⟨3, [8, 0], by decide, rfl⟩
 
 /-- the leaf facts that remain hypotheses outside the string fragment, as one visible statement:
 version-like variables (through C05's exactness on regular probes), the
